@@ -14,3 +14,5 @@ import ZnVerif.Ops.C17
 import ZnVerif.Properties.C06
 import ZnVerif.Ops.C06
 import ZnVerif.Properties.C18
+import ZnVerif.Properties.C19
+import ZnVerif.Ops.C19
